@@ -28,7 +28,7 @@ ASSUMPTIONS = ["invariant conditions are held true here so that the verdict of a
                "contracts are identified through their description '#<id>'"]
 DECO_KW = dict(n_pre=(0, 3), n_post=(0, 3), n_snap=(0, 2), n_wraps=(0, 2),
                err_forms=("default", "instance", "class", "lambda", "def"))
-HIER_KW = dict(n_classes=(1, 5), dag=True, with_invs=True, with_init=True, multi_root=True, async_ok=False)
+HIER_KW = dict(n_classes=(1, 5), dag=True, with_invs=True, with_init=True, multi_root=True, async_ok=True)
 KNOWN = {}
 
 
@@ -242,7 +242,8 @@ def nontrivial(case, truth, res, mask, n):
 
 @st.composite
 def strategy(draw):
-    case = draw(st.one_of(D.st_function_case(DECO_KW, async_ok=False), D.st_class_case(DECO_KW, HIER_KW),
+    # async callables too: their (sync) conditions sit in the same lists and are evaluated by hand in the same way
+    case = draw(st.one_of(D.st_function_case(DECO_KW, async_ok=True), D.st_class_case(DECO_KW, HIER_KW),
                           D.st_class_case(DECO_KW, HIER_KW)))
     # hold the invariants: force their codes to be truthy in both positions
     codes = dict(case["codes"])
